@@ -171,10 +171,10 @@ package ringz
 //@   sharedinv rgSlotE(r)
 //@   rely rgRelyShape(r) && rgRelySlots(r)
 //@   rely t0 >= 0 ==> r.T < t0 + 2147483648
-//@   rely mine >= 0 ==> (r.st[mine % r.cap] == 1 && r.tk[mine % r.cap] == mine && r.values[mine % r.cap].pos == old(r.values[mine % r.cap].pos))
+//@   rely mine >= 0 ==> (r.st[mine % r.cap] == 1 && r.tk[mine % r.cap] == mine && r.values[mine % r.cap].pos == old(r.values[mine % r.cap].pos) && r.values[mine % r.cap].value == old(r.values[mine % r.cap].value))
 //@   guarantee rgRelyShape(r) && rgRelySlots(r)
-//@   guarantee forall i in 0..r.cap: (old(r.st[i]) == 1 && old(r.tk[i]) != mine) ==> (r.st[i] == 1 && r.tk[i] == old(r.tk[i]) && r.values[i].pos == old(r.values[i].pos))
-//@   guarantee forall i in 0..r.cap: old(r.st[i]) == 3 ==> (r.st[i] == 3 && r.tk[i] == old(r.tk[i]) && r.values[i].pos == old(r.values[i].pos))
+//@   guarantee forall i in 0..r.cap: (old(r.st[i]) == 1 && old(r.tk[i]) != mine) ==> (r.st[i] == 1 && r.tk[i] == old(r.tk[i]) && r.values[i].pos == old(r.values[i].pos) && r.values[i].value == old(r.values[i].value))
+//@   guarantee forall i in 0..r.cap: old(r.st[i]) == 3 ==> (r.st[i] == 3 && r.tk[i] == old(r.tk[i]) && r.values[i].pos == old(r.values[i].pos) && r.values[i].value == old(r.values[i].value))
 //@   guarantee r.H == old(r.H) && r.T <= old(r.T) + 1
 //@   at after-call1:
 //@     ghost t0 = r.T
@@ -211,10 +211,10 @@ package ringz
 //@   rely h0 >= 0 ==> r.H < h0 + 2147483648
 // (the next clause is the instance i = h0 % cap of rgRelySlots, spelled out so that the solvers need not find it)
 //@   rely (h0 >= 0 && old(r.st[h0 % r.cap]) == 2 && r.H <= old(r.tk[h0 % r.cap])) ==> (r.st[h0 % r.cap] == 2 && r.tk[h0 % r.cap] == old(r.tk[h0 % r.cap]))
-//@   rely mine >= 0 ==> (r.st[mine % r.cap] == 3 && r.tk[mine % r.cap] == mine && r.values[mine % r.cap].pos == old(r.values[mine % r.cap].pos))
+//@   rely mine >= 0 ==> (r.st[mine % r.cap] == 3 && r.tk[mine % r.cap] == mine && r.values[mine % r.cap].pos == old(r.values[mine % r.cap].pos) && r.values[mine % r.cap].value == old(r.values[mine % r.cap].value))
 //@   guarantee rgRelyShape(r) && rgRelySlots(r)
-//@   guarantee forall i in 0..r.cap: old(r.st[i]) == 1 ==> (r.st[i] == 1 && r.tk[i] == old(r.tk[i]) && r.values[i].pos == old(r.values[i].pos))
-//@   guarantee forall i in 0..r.cap: (old(r.st[i]) == 3 && old(r.tk[i]) != mine) ==> (r.st[i] == 3 && r.tk[i] == old(r.tk[i]) && r.values[i].pos == old(r.values[i].pos))
+//@   guarantee forall i in 0..r.cap: old(r.st[i]) == 1 ==> (r.st[i] == 1 && r.tk[i] == old(r.tk[i]) && r.values[i].pos == old(r.values[i].pos) && r.values[i].value == old(r.values[i].value))
+//@   guarantee forall i in 0..r.cap: (old(r.st[i]) == 3 && old(r.tk[i]) != mine) ==> (r.st[i] == 3 && r.tk[i] == old(r.tk[i]) && r.values[i].pos == old(r.values[i].pos) && r.values[i].value == old(r.values[i].value))
 //@   guarantee r.T == old(r.T) && r.H <= old(r.H) + 1
 //@   at after-call1:
 //@     ghost h0 = r.H
